@@ -334,7 +334,7 @@ PLANS["C15"] = Plan("C15", atomic_models, extra=gen.kv_cuts, rows_to_scenarios=s
                          "kills itself at every hook step of set() and at random instants, with and without a previous value, with "
                          "and without encryption; afterwards Get / Keys / reopen must behave as the map with the old or the new "
                          "value or absent; non-trivial = a Get after a cut or killed write was judged")
-PLANS["C17"] = Plan("C17", lambda tier: [], extra=gen.kv_crypto, test="TestKV", trace_module="TraceKV", level="exploration",
+PLANS["C17"] = Plan("C17", lambda tier: [], extra=gen.kv_crypto, test="TestKV", trace_module="TraceKV", level="exploration", race=True,
                     assumptions=KV_TRUSTED + ["nothing is claimed about cryptographic strength; only the observable protocol: no 16-byte "
                                               "window of the value in any file, fresh ciphertext per write, rejection of modified files"],
                     rule="for values of several sizes on the encrypted backend: every byte position of the stored file is bit-flipped "
@@ -415,6 +415,8 @@ class Thinner:
 
     def __init__(self, cap, seed):
         self.per = max(8, cap // 400)
+        self.limit = 4 * cap
+        self.kept = 0
         self.r = random.Random(seed * 6700417 + 5)
         self.seen = {}
 
@@ -425,7 +427,9 @@ class Thinner:
             return True
         n = self.seen.get(k, 0) + 1
         self.seen[k] = n
-        return n <= self.per or self.r.random() < self.per / n
+        keep = self.kept < self.limit or n <= self.per or self.r.random() < self.per / n
+        self.kept += 1 if keep else 0
+        return keep
 
 
 def stratified(scn, cap, seed):
